@@ -70,6 +70,18 @@ ErrText == [e \in STRING |->
     [] e = "SIG_FINDANDDELETE" -> "Signature is found in scriptCode"
     [] OTHER -> "unknown error"]
 
+\* --pretend-valid=<sig>:<key>[,<sig>:<key>...]: every item has exactly one colon (values are hex / inline expressions)
+RECURSIVE CountOf(_, _)
+CountOf(cs, c) == IF cs = <<>> THEN 0 ELSE (IF Head(cs) = c THEN 1 ELSE 0) + CountOf(Tail(cs), c)
+RECURSIVE SplitCodes(_, _, _)
+SplitCodes(codes, sep, acc) ==
+    IF codes = <<>> THEN <<acc>>
+    ELSE IF Head(codes) = sep THEN <<acc>> \o SplitCodes(Tail(codes), sep, <<>>)
+    ELSE SplitCodes(Tail(codes), sep, Append(acc, Head(codes)))
+PretendListWellFormed(text) ==
+    LET items == SplitCodes(StrToCodes(text), 44, <<>>)
+    IN \A i \in 1..Len(items) : CountOf(items[i], 58) = 1 /\ items[i][1] # 58 /\ items[i][Len(items[i])] # 58
+
 \* substring test on code sequences
 Contains(hay, needle) == \E i \in 0..(Len(hay) - Len(needle)) : SubSeq(hay, i + 1, i + Len(needle)) = needle
 \* the stderr text names the error (exceptions of the number codec are reported in the tool's own words: any non-empty text)
